@@ -693,7 +693,21 @@ func (e *Engine) step(st *State) (forks []*State) {
 	case *ssa.MapUpdate:
 		return e.mapUpdate(st, fr, in)
 	case *ssa.Range:
-		fr.regs[in] = e.rangeOp(st, fr, in)
+		v := e.rangeOp(st, fr, in)
+		if fk, ok := v.(ForkVal); ok {
+			// every iteration order of a small map: Go's map order is nondeterminism of the program
+			for k := range fk.Vals {
+				tgt := st
+				if k < len(fk.Vals)-1 {
+					tgt = st.clone()
+					forks = append(forks, tgt)
+				}
+				tgt.top().regs[in] = fk.Vals[k]
+				tgt.top().ip++
+			}
+			return forks
+		}
+		fr.regs[in] = v
 	case *ssa.Next:
 		it := e.val(fr, in.Iter).(*IterVal)
 		if it.Pos >= len(it.Keys) {
@@ -1515,12 +1529,45 @@ func (e *Engine) rangeOp(st *State, fr *Frame, in *ssa.Range) Value {
 		for i := range idx {
 			idx[i] = i
 		}
-		sort.SliceStable(idx, func(a, b int) bool { return false })
-		for _, i := range idx {
-			it.Keys = append(it.Keys, mo.Entries[i].Key)
-			it.Vals = append(it.Vals, mo.Entries[i].Val)
+		mk := func(order []int) *IterVal {
+			it := &IterVal{}
+			for _, i := range order {
+				it.Keys = append(it.Keys, mo.Entries[i].Key)
+				it.Vals = append(it.Vals, mo.Entries[i].Val)
+			}
+			return it
 		}
-		return it
+		if e.MapOrders == "all" && len(idx) >= 2 && !e.InitMode {
+			var orders [][]int
+			if len(idx) <= 3 {
+				var perm func(pre, rest []int)
+				perm = func(pre, rest []int) {
+					if len(rest) == 0 {
+						orders = append(orders, append([]int(nil), pre...))
+						return
+					}
+					for i := range rest {
+						nr := append(append([]int(nil), rest[:i]...), rest[i+1:]...)
+						perm(append(pre, rest[i]), nr)
+					}
+				}
+				perm(nil, idx)
+			} else {
+				rev := make([]int, len(idx))
+				for i := range idx {
+					rev[i] = idx[len(idx)-1-i]
+				}
+				orders = [][]int{idx, rev}
+			}
+			fk := ForkVal{}
+			for _, o := range orders {
+				fk.Conds = append(fk.Conds, TrueT)
+				fk.Vals = append(fk.Vals, mk(o))
+			}
+			return fk
+		}
+		_ = it
+		return mk(idx)
 	}
 	unsupported("range over %T", x)
 	return nil
